@@ -592,7 +592,7 @@ func first(a, _ []byte) []byte { return a }
 
 //@ spec minLen_{alpha,unsigned,signed,float}() = 1
 //@ spec minLen_compound() = 0
-//@ spec LeafOK_{alpha,unsigned,signed,float,compound}(o) = as($KINDLeafNode, o).key.obj != nil && allocated(as($KINDLeafNode, o).key.obj) && 0 <= as($KINDLeafNode, o).key.idx && as($KINDLeafNode, o).key.idx + as($KINDLeafNode, o).len <= blen(as($KINDLeafNode, o).key.obj) && as($KINDLeafNode, o).len >= minLen_$KIND()
+//@ spec LeafOK_{alpha,unsigned,signed,float,compound}(o) = as($KINDLeafNode, o).key.obj != nil && allocated(as($KINDLeafNode, o).key.obj) && 0 <= as($KINDLeafNode, o).key.idx && as($KINDLeafNode, o).key.idx + as($KINDLeafNode, o).len <= blen(as($KINDLeafNode, o).key.obj) && as($KINDLeafNode, o).len >= minLen_$KIND() && atype(as($KINDLeafNode, o).key.obj) == 1000
 // leafKeyIs: the (transformed) key stored in leaf o is exactly the byte string s
 //@ spec leafKeyIs_{alpha,unsigned,signed,float,compound}(o, s) = bytesEq(mkslice(as($KINDLeafNode, o).key.obj, as($KINDLeafNode, o).key.idx, as($KINDLeafNode, o).len), s)
 //@ spec leafKeyIs_collation(o, s) = bytesEq(mkslice(as(collateLeafNode, o).key.obj, as(collateLeafNode, o).key.idx, as(collateLeafNode, o).keyLen), s)
@@ -663,7 +663,7 @@ func first(a, _ []byte) []byte { return a }
 //@   opt extent on
 //@   let rootTag0 = t.root.tag
 //@   requires WF1in_alpha(t) && sizeSane(t)
-//@   ensures[removed_key_matches] implies(result, old(leafKeyIs_alpha(leaf, keyS)))
+//@   ensures[removed_key_matches] implies(result, reveal(as(alphaLeafNode, leaf).key.obj) && leafKeyIs_alpha(leaf, keyS))
 //@   assume_at_call (*nodeRef).deleteChild : implies(isMerge(*ptr) && survT(*ptr, b) != 4, survP(*ptr, b) != ptr.obj && as(node, survP(*ptr, b)).prefixLen + as(node4, (*ptr).pointer).prefixLen + 1 < 4294967296)
 //@   ensures[wf] WF1_alpha(t)
 //@   ensures[size] t.size == old(t.size) - ite(result, 1, 0)
@@ -686,7 +686,7 @@ func first(a, _ []byte) []byte { return a }
 //@   opt extent on
 //@   let rootTag0 = t.root.tag
 //@   requires WF1in_$KIND(t) && sizeSane(t)
-//@   ensures[removed_key_matches] implies(result, old(leafKeyIs_$KIND(leaf, keyS)))
+//@   ensures[removed_key_matches] implies(result, reveal(as($KINDLeafNode, leaf).key.obj) && leafKeyIs_$KIND(leaf, keyS))
 //@   assume_at_call (*nodeRef).deleteChild : implies(isMerge(*ptr) && survT(*ptr, b) != 4, survP(*ptr, b) != ptr.obj && as(node, survP(*ptr, b)).prefixLen + as(node4, (*ptr).pointer).prefixLen + 1 < 4294967296)
 //@   ensures[wf] WF1_$KIND(t)
 //@   ensures[size] t.size == old(t.size) - ite(result, 1, 0)
@@ -828,7 +828,7 @@ func first(a, _ []byte) []byte { return a }
 //@ func (*collateLeafNode[V]).getTransformKey
 //@   inline
 
-//@ spec LeafOK_collation(o) = as(collateLeafNode, o).key.obj != nil && allocated(as(collateLeafNode, o).key.obj) && 0 <= as(collateLeafNode, o).key.idx && as(collateLeafNode, o).key.idx + as(collateLeafNode, o).keyLen <= blen(as(collateLeafNode, o).key.obj) && as(collateLeafNode, o).colKey.obj != nil && allocated(as(collateLeafNode, o).colKey.obj) && 0 <= as(collateLeafNode, o).colKey.idx && as(collateLeafNode, o).colKey.idx + as(collateLeafNode, o).colKeyLen <= blen(as(collateLeafNode, o).colKey.obj)
+//@ spec LeafOK_collation(o) = as(collateLeafNode, o).key.obj != nil && allocated(as(collateLeafNode, o).key.obj) && 0 <= as(collateLeafNode, o).key.idx && as(collateLeafNode, o).key.idx + as(collateLeafNode, o).keyLen <= blen(as(collateLeafNode, o).key.obj) && as(collateLeafNode, o).colKey.obj != nil && allocated(as(collateLeafNode, o).colKey.obj) && 0 <= as(collateLeafNode, o).colKey.idx && as(collateLeafNode, o).colKey.idx + as(collateLeafNode, o).colKeyLen <= blen(as(collateLeafNode, o).colKey.obj) && atype(as(collateLeafNode, o).key.obj) == 1000 && atype(as(collateLeafNode, o).colKey.obj) == 1000
 //@ spec HeapOK_collation() = forallref(o, implies(inT(o) && allocated(o) && o != nil && !pooled(o), NodeOK(o) && implies(atype(o) == leafT(), LeafOK_collation(o))))
 //@ spec WF1_collation(t) = t != nil && allocated(t) && atype(t) == typeid(collationSortedTree) && leafT() == typeid(collateLeafNode) && rootOK(t.root) && HeapOK_collation() && t.cok.buf != nil && t.cok.c != nil && scratchLen(t.cok.buf) < 2147483648
 //@ spec WF1in_collation(t) = WF1_collation(t) && LinkedLive() && rootLive(t.root)
@@ -857,7 +857,7 @@ func first(a, _ []byte) []byte { return a }
 //@   opt extent on
 //@   let rootTag0 = t.root.tag
 //@   requires WF1in_collation(t) && sizeSane(t)
-//@   ensures[removed_key_matches] implies(result, old(leafKeyIs_collation(leaf, keyS)))
+//@   ensures[removed_key_matches] implies(result, reveal(as(collateLeafNode, leaf).key.obj) && leafKeyIs_collation(leaf, keyS))
 //@   ensures[scratch_bounded] scratchLen(t.cok.buf) < 2147483648
 //@   assume_at_call (*nodeRef).deleteChild : implies(isMerge(*ptr) && survT(*ptr, b) != 4, survP(*ptr, b) != ptr.obj && as(node, survP(*ptr, b)).prefixLen + as(node4, (*ptr).pointer).prefixLen + 1 < 4294967296)
 //@   ensures[wf] WF1_collation(t)
